@@ -42,11 +42,20 @@ type DistCase struct {
 			NotAfter int    `json:"notAfter"`
 			Root     string `json:"root"`
 		} `json:"cert"`
+		// wire cases (TestWire)
+		Policy string            `json:"policy"`
+		Pre    bool              `json:"pre"`
+		Total  int               `json:"total"`
+		Reply  map[string]string `json:"reply"`
 	} `json:"c"`
 	Expect struct {
 		Months   int  `json:"months"`
 		Total    int  `json:"total"`
 		Eligible bool `json:"eligible"`
+		// wire cases
+		SCTs    []string `json:"scts"`
+		Success bool     `json:"success"`
+		Waits   bool     `json:"waits"`
 	} `json:"expect"`
 }
 
@@ -143,6 +152,9 @@ func TestDistributor(t *testing.T) {
 	for i := range cases {
 		dc := &cases[i]
 		c := dc.C
+		if c.T == "wire" {
+			continue // TestWire
+		}
 		if c.T == "lifetime" {
 			nb := time.Date(c.S[0], time.Month(c.S[1]), c.S[2], 0, 0, 0, 0, time.UTC)
 			na := time.Date(c.E[0], time.Month(c.E[1]), c.E[2], 0, 0, 0, 0, time.UTC)
@@ -242,7 +254,7 @@ func TestDistributor(t *testing.T) {
 		}
 		rep.Eval(fp + fmt.Sprintf(":%v", dc.Expect.Eligible))
 	}
-	rep.Replayed = len(cases)
+	rep.Replayed = rep.Evaluations
 	rep.Sample(cases[0])
 	rep.Sample(cases[len(cases)-1])
 	if err := rep.Write(); err != nil {
